@@ -119,23 +119,51 @@ def used_weights(n, skews, mp):
     return out
 
 
-def growth_sampling(rep, seed):
-    """Growth (statistical, recorded under X, never a verdict): the weights are what the generator samples first
-    choices with.  6000 one-entry lists over 3 agents with skew 3: sorted frequencies ~ (1/6, 2/6, 3/6)."""
+def first_choice_stage(rep, seed, tier):
+    """'... so that the most popular agent is exactly s times as likely to be drawn FIRST as the least popular one':
+    the first entry of a drawn list is agent i with probability Weights[i] (MC_Skew: the weights are a probability
+    distribution - Positive, SumsToOne - and Draw uses them for every list, whatever its length).  Decided statistically,
+    like 'every length can occur' in C08: the real Generator writes N one-sided lists per shape (complete lists, one-entry
+    lists, mixed lengths), the sorted first-choice frequencies read from the file are compared with the sorted exported
+    weights.  N = 6000: standard deviation <= 0.0065, tolerance 0.04 (> 6 sigma: false-alarm probability < 1e-8 per
+    comparison); the seeds are fixed, so the verdict on a given tree is deterministic."""
     import random
+    import shutil
+    import tempfile
     import numpy as np
     impl.ensure_repo()
-    from matchingproblems.generator import generator_shared as gs
-    random.seed(seed)
-    np.random.seed(seed % (2 ** 32))
+    from matchingproblems.generator.generator import Generator
+    N = 6000
+    shapes = [(2, 2, 2, 9, 1), (3, 3, 3, 3, 1), (3, 1, 1, 3, 1), (3, 1, 3, 5, 1), (2, 1, 2, 4, 1), (4, 4, 4, 7, 2), (5, 2, 5, 3, 2)]
+    if tier != 'quick':
+        shapes += [(6, 6, 6, 11, 1), (4, 1, 4, 1, 1), (8, 5, 8, 9, 2), (3, 3, 3, 1, 3)]
+    root = tempfile.mkdtemp(prefix='firstchoice-', dir=common.scratch())
     try:
-        lists, _ = gs.create_pref_lists_original(6000, 3, 1, 1, 0.0, 3.0)
-        cnt = sorted(sum(1 for l in lists if int(l[0]) == a) / 6000.0 for a in (1, 2, 3))
-        ok = all(abs(c - e) < 0.035 for c, e in zip(cnt, (1 / 6, 2 / 6, 3 / 6)))
-        what = 'sorted first-choice frequencies %s, weights (1/6, 2/6, 3/6)' % (cnt,)
-    except BaseException as e:  # noqa
-        ok, what = False, '%s: %s' % (type(e).__name__, e)
-    rep.clause('X.first_choice_frequencies_follow_weights', ok, key='sampling', what=what, own=False)
+        for j, (n, pmin, pmax, sp, sq) in enumerate(shapes):
+            key = 'n=%d pmin=%d pmax=%d s=%d/%d' % (n, pmin, pmax, sp, sq)
+            random.seed(seed * 101 + j)
+            np.random.seed((seed * 101 + j) % (2 ** 32))
+            d = os.path.join(root, 's%d' % j)
+            mp = 'ha' if j % 2 == 0 else 'spa'
+            tail = ('-n1 %d -n2 %d -pmin %d -pmax %d -uq %d' % (N, n, pmin, pmax, N)) + (' -n3 1 -luq %d' % N if mp == 'spa' else '')
+            try:
+                with impl.quiet():
+                    Generator(('-numinst 1 -o %s -mp %s %s -skew %r' % (d, mp, tail, sp / sq)).split())
+                lines = open(os.path.join(d, '0.txt')).read().split('\n')[1:N + 1]
+                firsts = [int(l.split(':', 1)[1].split()[0].strip('()')) for l in lines]
+            except BaseException as e:  # noqa
+                rep.clause('first_choice_frequencies_follow_weights', False, key=key, what='%s run: %s: %s' % (mp, type(e).__name__, e))
+                continue
+            freq = sorted(sum(1 for x in firsts if x == a) / float(N) for a in range(1, n + 1))
+            # exact weights: arithmetic progression 1 .. s normalised (the rationals MC_Skew exports for this triple)
+            raw = [Fraction((n - 1) * sq + i * (sp - sq), 1) for i in range(n)] if n > 1 else [Fraction(1)]
+            want = sorted(float(x / sum(raw)) for x in raw)
+            ok = len(firsts) == N and all(abs(f - w) < 0.04 for f, w in zip(freq, want))
+            rep.clause('first_choice_frequencies_follow_weights', ok, key=key,
+                       what='-mp %s, %d lists of %d..%d of %d agents, skew %s: sorted first-choice frequencies %s, weights %s'
+                            % (mp, N, pmin, pmax, n, sp / sq, [round(f, 3) for f in freq], [round(w, 3) for w in want]))
+    finally:
+        shutil.rmtree(root, ignore_errors=True)
 
 
 def main(tier, seed):
@@ -165,7 +193,8 @@ def main(tier, seed):
         pool.close()
     if res['exports'] != len(triples):
         common.machinery_exit('C17', 'exported %d, expected %d' % (res['exports'], len(triples)))
-    growth_sampling(rep, seed)
-    rep.assumptions = ['numeric equality up to relative tolerance 1e-9 (the function returns floats)']
+    first_choice_stage(rep, seed, tier)
+    rep.assumptions = ['numeric equality up to relative tolerance 1e-9 (the function returns floats)',
+                       'first-choice probabilities are decided statistically: 6000 lists per shape, tolerance 0.04 (> 6 sigma), fixed seeds']
     return rep.finish(exhaustive=True, rule='%d triples (n, p, q): all n in 1..12 (24) x p, q in 1..12 (40), plus n up to 100 (300), skews from 1/100000 to 100000 and '
                            'skews within 1e-5 and 1e-6 of 1; non-trivial = n >= 2' % len(triples))
